@@ -169,6 +169,9 @@ func (m *M) Begin(level int) int {
 	return id
 }
 
+// HasWrite reports whether the transaction has written key.
+func (t *Tx) HasWrite(key string) bool { _, ok := t.writes[key]; return ok }
+
 // TxOpen reports whether tx id is open.
 func (m *M) TxOpen(id int) bool {
 	t, ok := m.txs[id]
